@@ -262,6 +262,10 @@ def schedules(quick):
         ("first-generation-save-rename", "regen.validated#1=1200", [(150, "model", 1, "rename")]),
         ("first-generation-two-saves", "regen.validated#1=1200", [(150, "model", 1, "inplace"), (100, "model", 2, "inplace")]),
         ("first-generation-manifest-drop", "regen.validated#1=1200", [(150, "manifest-drop", 1, "inplace")]),
+        # "versions-": a listed previous version is edited while the watcher runs; the latest model stays as it is (its compatibility code must follow)
+        ("versions-predecessor-edited-last", "", [(0, "model", 1, "inplace"), (500, "v0-edit", 1, "inplace")]),
+        ("versions-predecessor-edited-twice", "", [(0, "model", 2, "rename"), (500, "v0-edit", 2, "rename"), (500, "v0-edit", 10, "inplace"), (500, "v0-edit", 2, "inplace")]),
+        ("versions-predecessor-then-model", "", [(0, "v0-edit", 3, "inplace"), (500, "model", 3, "inplace"), (500, "v0-edit", 3, "rename")]),
         # "prefix-": paths that begin like the path of an output directory without being inside it
         ("prefix-import-dir-named-like-output-dir-edited-last", "", [(0, "model", 1, "inplace"), (400, "lib", 2, "inplace")]),
         ("prefix-import-dir-named-like-output-dir-edited-rename", "", [(0, "lib", 1, "rename"), (400, "model", 2, "rename"), (400, "lib", 3, "rename")]),
@@ -315,6 +319,12 @@ def run(ctx):
         root = os.path.join(ctx.workdir, "cases", name)
         shutil.rmtree(root, ignore_errors=True)
         write_tree(root, 0, single_import=single, libdir=libdir)
+        # "versions-": the package lists a previous version (a sibling directory, identical to the package at first) that is edited while the watcher runs
+        with_versions = name.startswith("versions-")
+        v0_text = model(0)
+        if with_versions:
+            common.write_tree(root, {"v0/_package.yml": "namespace: Main\nimports:\n  - ../lib\n", "v0/model.yml": v0_text,
+                                     "main/_package.yml": manifest() + "versions:\n  v0: ../v0\n"})
         if name.startswith("subdir-"):
             common.write_tree(root, {"main/sub/deep/extra.yml": "SubFile0: !record\n  fields:\n    z: int\n", "lib/more/extra.yml": "LibSub0: !record\n  fields:\n    z: int\n"})
         if name.startswith("startbad-lib"):
@@ -419,6 +429,11 @@ def run(ctx):
                     libsub = "LibSub%d: !record\n  fields:\n    z: int\n" % v
                     os.makedirs(os.path.join(root, "lib/more"), exist_ok=True)
                     save(os.path.join(root, "lib/more/extra.yml"), libsub, how)
+                elif kind == "v0-edit":
+                    # the previous version becomes the model of variant v with another (convertible) type for the field `v`: what the latest version
+                    # has to convert from changes, the latest model itself does not
+                    v0_text = model(v, field_type="int64" if v % 8 == 0 else "int")
+                    save(os.path.join(root, "v0/model.yml"), v0_text, how)
                 elif kind == "mkdir-sub":
                     # an empty subdirectory appears in the package (the file in it follows in a later step)
                     os.makedirs(os.path.join(root, "main/sub/deep"), exist_ok=True)
@@ -497,6 +512,8 @@ def run(ctx):
                 common.write_tree(ref, {"main/model.yml": final_model_text})
             if final_manifest_text is not None:
                 common.write_tree(ref, {"main/_package.yml": final_manifest_text})
+            if with_versions:
+                common.write_tree(ref, {"v0/_package.yml": "namespace: Main\nimports:\n  - ../lib\n", "v0/model.yml": v0_text, "main/_package.yml": manifest(cur_outputs) + "versions:\n  v0: ../v0\n"})
             if second is not None:
                 common.write_tree(ref, {"main/second.yml": second})
             if sub is not None:
